@@ -46,6 +46,14 @@ func genFastaLen(r *rand.Rand) int {
 
 func genFastaList(r *rand.Rand) []*fasta.Fasta {
 	n := r.IntN(9)
+	if r.IntN(60) == 0 { // many small records: state carried from record to record accumulates
+		n = 300 + r.IntN(3000)
+		recs := make([]*fasta.Fasta, n)
+		for i := range recs {
+			recs[i] = genFastaRecord(r, r.IntN(100))
+		}
+		return recs
+	}
 	var recs []*fasta.Fasta
 	big := 0
 	for i := 0; i < n; i++ {
@@ -236,6 +244,9 @@ func fastaDecodeCompare(k *K, what string, recs []*fasta.Fasta, text []byte) {
 
 func fastaListString(recs []*fasta.Fasta) string {
 	s := fmt.Sprintf("%d records:", len(recs))
+	if len(recs) > 40 {
+		return s + " (many small records)"
+	}
 	for _, r := range recs {
 		if len(r.Name) > 200 {
 			s += fmt.Sprintf(" {namelen=%d seqlen=%d}", len(r.Name), len(r.Sequence))
@@ -302,9 +313,10 @@ func c01Lengths(c *Ctx) {
 
 func c01Lists(c *Ctx) {
 	n := c.N(1200, 40000)
-	nlay := c.N(8, 16)
+	nlayAll := c.N(8, 16)
 	for i := 0; i < n; i++ {
 		c.Case(int64(i), func(k *K) {
+			nlay := nlayAll
 			r := k.Rand()
 			recs := genFastaList(r)
 			k.Input("records", func() string { return fastaListString(recs) })
@@ -326,6 +338,10 @@ func c01Lists(c *Ctx) {
 			}
 			if long {
 				k.Nontrivial(text)
+			}
+			if len(recs) > 40 {
+				nlay = 2
+				k.Count("many_record_files", 1)
 			}
 			for j := 0; j < nlay; j++ {
 				lay := genLayout(r)
